@@ -659,6 +659,7 @@ def run_case(case, prefix_sig=''):
             if v and first[0] is None:
                 first[0] = (list(out.choices), list(low))
             viol.extend(v)
+            return bool(v)          # one counterexample per exploration is enough
         part = case.get('part')     # (p, P): this call explores the sub-trees p, p+P, ... hanging off the default execution
         if part is None:
             sts = [e3.explore(sc, bound, on, max_exec=max_exec, count_all=count_all, low=low, fine=True)]
@@ -670,7 +671,9 @@ def run_case(case, prefix_sig=''):
             if part[0] == 0:
                 on(out0)
                 sts.append({'executions': 1, 'decisions': len(out0.points), 'capped': False})
-            for root in roots[part[0]::part[1]]:
+            for root in (roots[part[0]::part[1]] if not viol else []):
+                if viol:
+                    break
                 sts.append(e3.explore(sc, bound, on, max_exec=max_exec, count_all=count_all, low=low, fine=True, root=root))
         for st in sts:
             stats_tot['schedules'] += st['executions']
